@@ -54,22 +54,42 @@ def tails(s: list[Any]) -> list[Any]:
     return out
 
 
+def loops_with_context(d: Any) -> list[tuple[Any, bool, bool]]:
+    """every loop of the definition with what follows it: (loop, terminal, parallel)
+    terminal: nothing follows the loop up to the end of the job (it is in tail position of the top-level sequence,
+              through forks of any kind);
+    parallel: since the last point where something followed, the loop sits in tail position of a branch of an
+              AND/OR fork (its exit joins parallel branches).  Inside a loop body both are reset."""
+    out: list[tuple[Any, bool, bool]] = []
+
+    def seq(items: list[Any], terminal: bool, parallel: bool) -> None:
+        for k, it in enumerate(items):
+            last = k == len(items) - 1
+            t, p = (terminal, parallel) if last else (False, False)
+            if it[0] == "fork":
+                for b in it[2]:
+                    seq(b[1], t, p or it[1] in ("AND", "OR"))
+            elif it[0] == "loop":
+                out.append((it, t, p))
+                seq(it[1][1], False, False)
+
+    seq(d[1], True, False)
+    return out
+
+
 def finding_classes(d: Any) -> set[str]:
-    """KF-A: a loop in tail position of a sequence (no event follows it there) with a break branch of >= 2 events
-    KF-B: a loop in tail position of a sequence whose body has an AND/OR fork in tail position
+    """KF-A: a loop after which the job ends (terminal position) with a break branch of >= 2 events
+    KF-B: a loop whose body has an AND/OR fork in tail position and whose exit ends the job or joins parallel
+          branches (tail position of an AND/OR fork branch)
     KF-C: a loop whose body has, in tail position, a loop that contains a break"""
     out: set[str] = set()
-    for s in seqs(d):
-        for it in tails(s):
-            if it[0] == "loop":
-                if long_break(it[1]):
-                    out.add("KF-A")
-                if any(t[0] == "fork" and t[1] in ("AND", "OR") for t in tails(it[1][1])):
-                    out.add("KF-B")
-    for s in seqs(d):
-        for it in s:
-            if it[0] == "loop" and any(t[0] == "loop" and has_brk_any(t) for t in tails(it[1][1])):
-                out.add("KF-C")
+    for lp, terminal, parallel in loops_with_context(d):
+        if terminal and long_break(lp[1]):
+            out.add("KF-A")
+        if (terminal or parallel) and any(t[0] == "fork" and t[1] in ("AND", "OR") for t in tails(lp[1][1])):
+            out.add("KF-B")
+        if any(t[0] == "loop" and has_brk_any(t) for t in tails(lp[1][1])):
+            out.add("KF-C")
     return out
 
 
